@@ -4,6 +4,18 @@ NOTES = ('Every check = Coq theorems (coq/Props/<id>.v, no axioms) about the exe
          'Properties not yet built are listed under not_applicable with reason "not built yet" until their check exists.')
 ALL = ['C%02d' % i for i in range(1, 18)]
 META = {
+ 'C06': dict(
+   text='Theorem C06_gate over the model: for EVERY ticket-bearing operation of market, house, bet, ovm and subaccount (both tickets of a subaccount wager), in every state, a ticket failing its rule (leader key / any registered key / the voter\'s key; exp > block time) makes the step return (same state, Err); KYC inversion lemmas; payload-determinism; plus finite facts re-proved on tables regenerated from /repo on every run: every handler of a ticketed message verifies before its first write, every ticketed message type is served. Reward handlers are covered by the source fact and by C12\'s own machine.',
+   note='PARTIAL for the cryptographic core: EdDSA/JWT are abstracted (signer id or -1); that real tokens map to the abstraction is exercised with 10 forgery kinds per run, not proved. Translator is trusted (over-approximates paths by concatenating branches). No axioms.',
+   technique='Coq proof (case analysis over handlers) + vm_compute facts over regenerated source tables + differential correspondence'),
+ 'C14': dict(
+   text='Theorems: the vault changes in no operation but EndBlock; when it changes, an active unexpired proposal had >= MajorityCount yes votes and the vault becomes its keys, leader first (C14_change_partial); 0.6667 = ceil(2n/3) for n in {4,5}; vote inversion (own key ticket, once per key). The full statement (only votes of currently registered keys count) is REFUTED by a vm_compute witness (C14_removed_keys_refuted) that replays on the real app: recorded as known finding D10.',
+   note='Known finding D10 is reported as KNOWN-FINDING, any other C14 monitor failure is a VIOLATION. Model hand-written, correspondence-checked. No axioms.',
+   technique='Coq proof by induction over the proposal list + refutation witness by vm_compute + differential correspondence'),
+ 'C15': dict(
+   text='Model determinism is definitional (step is a function; stated). The deciding facts: (1) C15_sources, re-proved on every run over nondet.v regenerated from /repo: no order-sensitive map range, wall clock, goroutine, select or rand in the custom modules\' state-transition code; (2) the code agrees with a function (correspondence); (3) each sampled history is executed in two fresh processes with different GOMAXPROCS and the per-block app hashes and event digests are compared.',
+   note='PARTIAL: the Go runtime, the SDK stores and non-sge modules are outside the model; (3) is exploration, not proof. Translator trusted.',
+   technique='vm_compute fact over regenerated source table + two-process differential execution'),
  'C13': dict(
    text='Theorems for all histories/inputs over the model: per-block supply law, neutrality of every non-BeginBlock operation, '
         'conservation (sum of balances = supply) by induction over histories, the phase-sum carry law for all B, P, carry, and '
